@@ -129,6 +129,18 @@ def tok_4(ctx, rep):
             ok = any(_yield_token_type(s) == kind for s in neighbours)
             rep.ob('TOK-4', TOK, g.qual, norm(n), ok,
                    'indentation stack change without an adjacent yield of a %s token' % kind)
+            # the order the incremental parser relies on: it shares this list, looks at it when a token arrives
+            # (len(indents) at a DEDENT) and abandons the generator at the first token after its stop line
+            if ok and lst is not None:
+                before = i > 0 and _yield_token_type(lst[i - 1]) == kind
+                after = i + 1 < len(lst) and _yield_token_type(lst[i + 1]) == kind
+                want_yield_first = kind in ('INDENT', 'ERROR_DEDENT')
+                ok2 = before if want_yield_first else after
+                rep.ob('TOK-4', TOK, g.qual, 'order: %s' % ('yield %s, then %s' % (kind, norm(n)) if want_yield_first
+                                                            else '%s, then yield %s' % (norm(n), kind)), ok2,
+                       'the %s token is yielded %s the indentation stack is changed: the diff parser, which shares the list '
+                       'and may drop the generator at this token, sees the stack in the other state'
+                       % (kind, 'after' if want_yield_first else 'before'))
     rep.minimum('TOK-4', 4)
 
 
